@@ -43,7 +43,13 @@ TRANSLATION RULES (⟦·⟧ on statement lists gives a term of type `Py.M τ`):
   order (left operand before right operand, arguments left to right), the remaining pure expression is
   rendered fully parenthesised. `a and b` / `a or b` / `x if c else y` whose later operands can raise are
   bound as one conditional (`if a then ⟦b⟧ else .ok false`), so nothing is evaluated that Python would skip.
-  `/`, `//`, `%` by a non-zero numeric LITERAL cannot raise and are rendered as the plain operation.
+  `/`, `//`, `%` by a non-zero numeric LITERAL (or a module constant defined as one) cannot raise and are
+  rendered as the plain operation.
+  A name that is neither a parameter nor assigned in the function is a MODULE CONSTANT if it is bound exactly once at
+  module level, never declared `global`, and its defining expression is literal arithmetic: that expression is inlined.
+  `x = C(a, b, c)` for a class C of the same file whose `__init__` is exactly `self.p = p` for each parameter (checked)
+  creates a LOCAL OBJECT: one Lean variable per attribute (`x_p`); `x.p = e`, `x.p op= e`, `x.p` and `return x` (the
+  tuple of the attributes in constructor order) are accepted, any other use of `x` (alias, argument) is refused.
 """
 import argparse
 import ast
@@ -76,6 +82,10 @@ WHITELIST = [
       "coord": {"getX()": "float", "getY()": "float"}}, "optional[tuple[float,float]]", {}),
     ("core/spatial_index.py", "SpatialIndex.groundDistanceToUnits", "SpatialIndex_groundDistanceToUnits",
      {"self": {"dX": "float", "dY": "float"}, "distance": "float"}, "int", {}),
+    ("core/obs_coords.py", "GeoCoords.toECEFCoords", "GeoCoords_toECEFCoords",
+     {"self": {"lon": "float", "lat": "float", "hgt": "float"}}, "object[ECEFCoords]", {}),
+    ("core/obs_coords.py", "ECEFCoords.toGeoCoords", "ECEFCoords_toGeoCoords",
+     {"self": {"X": "float", "Y": "float", "Z": "float"}}, "object[GeoCoords]", {}),
     ("core/raster.py", "Raster.getCell", "Raster_getCell",
      {"self": {"xmin": "float", "xmax": "float", "ymin": "float", "ymax": "float", "resolution": "tuple[float,float]",
                "nrow": "int", "ncol": "int"},
@@ -87,8 +97,9 @@ MATH_FUNS = {"sqrt": (1, "F", "α → α"), "sin": (1, "F", "α → α"), "cos":
              "atan": (1, "F", "α → α"), "atan2": (2, "F", "α → α → α"), "exp": (1, "F", "α → α"), "log": (1, "F", "α → α"),
              "floor": (1, "I", "α → Int"),      # math.floor
              "trunc": (1, "I", "α → Int"),      # int(x) on a float: truncation toward zero
-             "pi": (0, "F", "α")}               # math.pi
-MATH_ORDER = ["pi", "sqrt", "sin", "cos", "tan", "atan", "atan2", "exp", "log", "floor", "trunc"]
+             "pi": (0, "F", "α"),               # math.pi
+             "pow": (2, "F", "α → α → α")}      # x ** y and pow(x, y) with a float operand (C's pow)
+MATH_ORDER = ["pi", "sqrt", "sin", "cos", "tan", "atan", "atan2", "exp", "log", "pow", "floor", "trunc"]
 LEAN_KEYWORDS = {"«", "at", "from", "end", "fun", "in", "do", "then", "else", "if", "let", "have", "show", "by", "match",
                  "with", "where", "def", "theorem", "open", "section", "namespace", "variable", "instance", "class",
                  "structure", "import", "Type", "Prop", "Sort", "forall", "exists", "using", "this", "mut", "for",
@@ -111,6 +122,8 @@ def parse_ty(s):
     s = s.replace(" ", "")
     if s in ("float", "int", "bool"):
         return {"float": "F", "int": "I", "bool": "B"}[s]
+    if s.startswith("object[") and s.endswith("]"):
+        return ("Obj", s[7:-1])
     if s.startswith("list[") and s.endswith("]"):
         return ("L", parse_ty(s[5:-1]))
     if s.startswith("optional[") and s.endswith("]"):
@@ -151,6 +164,8 @@ def uses_alpha(t):
         return True
     if isinstance(t, tuple) and t[0] == "R":
         return False
+    if isinstance(t, tuple) and t[0] == "Obj":
+        return True
     if isinstance(t, tuple):
         if t[0] in ("L", "O"):
             return uses_alpha(t[1])
@@ -246,6 +261,9 @@ class FnTranslator:
         bad(node, "a %s where a number is expected" % (v.ty,))
 
     def nonzero_literal(self, node):
+        if isinstance(node, ast.Name) and node.id not in self._env_names and node.id not in self.assigned:
+            c = self.unit.constant(node.id)      # a module constant defined as a non-zero literal
+            return c is not None and not isinstance(c, ast.Name) and self.nonzero_literal(c)
         if isinstance(node, ast.Constant) and type(node.value) in (int, float) and node.value != 0 and node.value == node.value:
             return True
         if isinstance(node, ast.UnaryOp) and isinstance(node.op, (ast.USub, ast.UAdd)):
@@ -282,7 +300,17 @@ class FnTranslator:
             bad(e, "constant of type %s" % type(v).__name__)
         if isinstance(e, ast.Name):
             if e.id not in env:
-                bad(e, "name %s is not a parameter or a local bound on every path to here" % e.id)
+                if e.id not in self.assigned:
+                    c = self.unit.constant(e.id)
+                    if c is not None:
+                        b = []
+                        v = self.expr(c, {}, b)      # a module constant: literal arithmetic only
+                        if b or v.ty not in ("F", "I"):
+                            bad(e, "module constant %s is not plain literal arithmetic" % e.id)
+                        return v
+                bad(e, "name %s is not a parameter, a module constant or a local bound on every path to here" % e.id)
+            if isinstance(env[e.id], tuple) and env[e.id][0] in ("R", "Obj"):
+                bad(e, "object %s used as a value (only its attributes can be read)" % e.id)
             return Val(ident(e.id), env[e.id])
         if isinstance(e, ast.UnaryOp):
             v = self.expr(e.operand, env, binds)
@@ -365,6 +393,11 @@ class FnTranslator:
                 if e.attr not in fields:
                     bad(e, "attribute %s.%s is not declared in the signature" % (e.value.id, e.attr))
                 return Val(ident(e.value.id + "_" + e.attr), fields[e.attr])
+            if isinstance(e.value, ast.Name) and isinstance(env.get(e.value.id), tuple) and env[e.value.id][0] == "Obj":
+                key = e.value.id + "." + e.attr
+                if key not in env:
+                    bad(e, "attribute %s of the local object is not set by its constructor" % key)
+                return Val(ident(e.value.id + "_" + e.attr), env[key])
             bad(e, "attribute access")
         if isinstance(e, ast.Call):
             return self.call(e, env, binds)
@@ -397,6 +430,11 @@ class FnTranslator:
                 return Val("(%s %s %s)" % (a.term, sym, b.term), "I")
             self.need(cls)
             return Val("(%s %s %s)" % (self.as_float(e.left, a), sym, self.as_float(e.right, b)), "F")
+        if isinstance(op, ast.Pow):
+            if a.ty == "I" and b.ty == "I":
+                bad(e, "** on two ints")
+            self.math.add("pow")
+            return Val("(pow %s %s)" % (self.as_float(e.left, a), self.as_float(e.right, b)), "F")
         if isinstance(op, ast.Div):
             x, y = self.as_float(e.left, a), self.as_float(e.right, b)
             self.need("Div")
@@ -513,7 +551,7 @@ class FnTranslator:
                 self.need("Sub", "DecidableLT")
                 self.ofnat.add(0)
                 return Val("(Py.fabs %s)" % self.as_float(e.args[0], args[0]), "F")
-            if f.attr in MATH_FUNS and f.attr not in ("trunc", "pi"):
+            if f.attr in MATH_FUNS and f.attr not in ("trunc", "pi", "pow"):
                 if len(args) != MATH_FUNS[f.attr][0]:
                     bad(e, "math.%s arity" % f.attr)
                 self.math.add(f.attr)
@@ -521,8 +559,13 @@ class FnTranslator:
             bad(e, "math.%s is not in the subset" % f.attr)
         if isinstance(f, ast.Name) and f.id not in env:
             name = f.id
-            if name in ("abs", "float", "min", "max", "int"):
+            if name in ("abs", "float", "min", "max", "int", "pow"):
                 args = [self.expr(a, env, binds) for a in e.args]
+                if name == "pow":
+                    if len(args) != 2 or any(a.ty not in ("F", "I") for a in args) or all(a.ty == "I" for a in args):
+                        bad(e, "pow is only accepted on two numbers, one of them a float")
+                    self.math.add("pow")
+                    return Val("(pow %s %s)" % (self.as_float(e.args[0], args[0]), self.as_float(e.args[1], args[1])), "F")
                 if name == "int":
                     if len(args) != 1 or args[0].ty not in ("F", "I"):
                         bad(e, "int() of a non-number")
@@ -637,6 +680,12 @@ class FnTranslator:
                 if isinstance(self.ret, tuple) and self.ret[0] == "O":
                     return "(.ok none)"
                 bad(s, "returns None but the declared return type is not optional")
+            if isinstance(self.ret, tuple) and self.ret[0] == "Obj":
+                if not (isinstance(s.value, ast.Name) and env.get(s.value.id) == ("Obj", self.ret[1])):
+                    bad(s, "returns something that is not a local %s object" % self.ret[1])
+                x = s.value.id
+                fields = self.unit.ctor_fields(self.ret[1])
+                return "(.ok (%s))" % ", ".join(ident(x + "_" + f) for f in fields)
             binds = []
             term = self.ret_value(s.value, env, binds)
             return self.close(binds, ".ok %s" % term)
@@ -644,6 +693,37 @@ class FnTranslator:
             if len(s.targets) != 1:
                 bad(s, "chained assignment")
             tgt = s.targets[0]
+            if isinstance(tgt, ast.Attribute) and isinstance(tgt.value, ast.Name) and isinstance(env.get(tgt.value.id), tuple) \
+                    and env[tgt.value.id][0] == "Obj":
+                # store into an attribute of an object created in this function (no alias of it can exist)
+                key = tgt.value.id + "." + tgt.attr
+                if key not in env:
+                    bad(s, "attribute %s is not set by the constructor" % key)
+                binds = []
+                v = self.expr(s.value, env, binds)
+                if not (v.ty == env[key] or (env[key] == "F" and v.ty == "I")):
+                    bad(s, "attribute %s changes type" % key)
+                term = self.as_float(s.value, v) if env[key] == "F" else v.term
+                body = "let %s : %s := %s;\n%s" % (ident(tgt.value.id + "_" + tgt.attr), lean_ty(env[key]), term, self.block(rest, env, fresh))
+                return self.close(binds, body)
+            if isinstance(tgt, ast.Name) and isinstance(s.value, ast.Call) and isinstance(s.value.func, ast.Name) \
+                    and s.value.func.id not in env and self.unit.ctor_fields(s.value.func.id) is not None:
+                # x = C(a1, .., an) for a class C of this file whose __init__ only stores its parameters
+                x, cls = tgt.id, s.value.func.id
+                fields = self.unit.ctor_fields(cls)
+                if s.value.keywords or len(s.value.args) != len(fields):
+                    bad(s, "constructor call with keyword / defaulted arguments")
+                binds = []
+                vals = [self.expr(a, env, binds) for a in s.value.args]
+                env2 = {k: t for k, t in env.items() if not k.startswith(x + ".")}
+                env2[x] = ("Obj", cls)
+                lets = []
+                for f, a, v in zip(fields, s.value.args, vals):
+                    if v.ty not in ("F", "I"):
+                        bad(s, "constructor argument that is not a number")
+                    env2[x + "." + f] = "F"          # coordinates are floats
+                    lets.append("let %s : α := %s" % (ident(x + "_" + f), self.as_float(a, v)))
+                return self.close(binds, ";\n".join(lets) + ";\n" + self.block(rest, env2, fresh - {x}))
             if isinstance(tgt, ast.Name):
                 x = tgt.id
                 # list creation
@@ -696,10 +776,14 @@ class FnTranslator:
                 return self.close(binds, body)
             bad(s, "assignment target")
         if isinstance(s, ast.AugAssign):
-            if not isinstance(s.target, ast.Name):
+            if isinstance(s.target, ast.Name):
+                tstore, tload = ast.Name(id=s.target.id, ctx=ast.Store()), ast.Name(id=s.target.id, ctx=ast.Load())
+            elif isinstance(s.target, ast.Attribute) and isinstance(s.target.value, ast.Name):
+                tstore = ast.Attribute(value=ast.Name(id=s.target.value.id, ctx=ast.Load()), attr=s.target.attr, ctx=ast.Store())
+                tload = ast.Attribute(value=ast.Name(id=s.target.value.id, ctx=ast.Load()), attr=s.target.attr, ctx=ast.Load())
+            else:
                 bad(s, "augmented assignment target")
-            new = ast.Assign(targets=[ast.Name(id=s.target.id, ctx=ast.Store())],
-                             value=ast.BinOp(left=ast.Name(id=s.target.id, ctx=ast.Load()), op=s.op, right=s.value))
+            new = ast.Assign(targets=[tstore], value=ast.BinOp(left=tload, op=s.op, right=s.value))
             ast.copy_location(new, s)
             ast.fix_missing_locations(new)
             return self.block([new] + rest, env, fresh)
@@ -724,6 +808,8 @@ class FnTranslator:
             if not (isinstance(d, ast.Name) and d.id == "staticmethod"):
                 raise Unsupported("decorator")
         env = dict(self.params)
+        self._env_names = set(self.params)
+        self.assigned = {n.id for n in ast.walk(fdef) if isinstance(n, ast.Name) and isinstance(n.ctx, ast.Store)}
         body = self.block(list(fdef.body), env, frozenset())
         alltypes = [t for p, t in self.params.items() if p not in self.records] + [self.ret]
         for r in self.records.values():
@@ -746,7 +832,14 @@ class FnTranslator:
                     sig.append("(%s : %s)" % (ident(p + "_" + f.replace("()", "")), lean_ty(ft)))
             else:
                 sig.append("(%s : %s)" % (ident(p), lean_ty(t)))
-        head = "def %s %s : Py.M %s :=\n" % (self.lean, " ".join(sig), lean_ty(self.ret))
+        if isinstance(self.ret, tuple) and self.ret[0] == "Obj":
+            fields = self.unit.ctor_fields(self.ret[1])
+            if fields is None:
+                raise Unsupported("class %s has no constructor of the accepted form" % self.ret[1])
+            rty = "(" + " × ".join(["α"] * len(fields)) + ")"
+        else:
+            rty = lean_ty(self.ret)
+        head = "def %s %s : Py.M %s :=\n" % (self.lean, " ".join(sig), rty)
         return head + "".join("  " + l + "\n" for l in body.split("\n"))
 
 
@@ -776,6 +869,50 @@ class Unit:
             else:
                 return node if isinstance(node, ast.FunctionDef) else None
         return None
+
+    def constant(self, name):
+        """defining expression of a module-level name bound exactly once at module level (and never declared global)"""
+        hits = []
+        for n in self.tree.body:
+            if isinstance(n, ast.Assign) and any(isinstance(t, ast.Name) and t.id == name for t in n.targets):
+                hits.append(n.value if len(n.targets) == 1 else None)
+            elif isinstance(n, ast.AnnAssign) and isinstance(n.target, ast.Name) and n.target.id == name:
+                hits.append(n.value)
+            elif isinstance(n, ast.AugAssign) and isinstance(n.target, ast.Name) and n.target.id == name:
+                hits.append(None)
+        for n in ast.walk(self.tree):
+            if isinstance(n, (ast.Global, ast.Nonlocal)) and name in n.names:
+                return None
+        if len(hits) != 1 or hits[0] is None:
+            return None
+        return hits[0]
+
+    def ctor_fields(self, cls):
+        """attribute names, in parameter order, of a class of this file whose __init__ is exactly
+        `self.p = p` for each of its parameters (docstring allowed); None otherwise"""
+        hit = [n for n in self.tree.body if isinstance(n, ast.ClassDef) and n.name == cls]
+        if len(hit) != 1:
+            return None
+        inits = [n for n in hit[0].body if isinstance(n, ast.FunctionDef) and n.name == "__init__"]
+        if len(inits) != 1 or inits[0].decorator_list:
+            return None
+        a = inits[0].args
+        if a.vararg or a.kwarg or a.kwonlyargs or a.posonlyargs or not a.args:
+            return None
+        params = [x.arg for x in a.args]
+        body = [st for st in inits[0].body
+                if not (isinstance(st, ast.Expr) and isinstance(st.value, ast.Constant) and isinstance(st.value.value, str))]
+        fields = []
+        for st, pname in zip(body, params[1:]):
+            ok = (isinstance(st, ast.Assign) and len(st.targets) == 1 and isinstance(st.targets[0], ast.Attribute)
+                  and isinstance(st.targets[0].value, ast.Name) and st.targets[0].value.id == params[0]
+                  and isinstance(st.value, ast.Name) and st.value.id == pname)
+            if not ok:
+                return None
+            fields.append(st.targets[0].attr)
+        if len(body) != len(params) - 1 or len(set(fields)) != len(fields):
+            return None
+        return fields
 
     def lookup(self, pyname, caller):
         entry = [e for e in self.entries if e[1] == pyname]
